@@ -369,6 +369,9 @@ var BlockedHook func()
 // TryLock / TryRLock method.  A real Lock would block the only running task
 // for ever if the holder is parked.
 func SpinLock(try func() bool) {
+	if h := SyncHook; h != nil {
+		h() // a preferred yield point: lock-order and check-then-lock windows
+	}
 	for !try() {
 		if h := BlockedHook; h != nil {
 			h()
@@ -415,6 +418,9 @@ func onceSetRunning(i int, v bool) {
 // OnceDo replaces o.Do(f) in C16 builds: while another (parked) task is
 // inside f the caller yields instead of blocking inside the real Once.
 func OnceDo(o *sync.Once, f func()) {
+	if h := SyncHook; h != nil {
+		h()
+	}
 	i := onceSlot(o)
 	for onceIsRunning(i) {
 		if h := BlockedHook; h != nil {
